@@ -63,6 +63,11 @@ const OPS: &[(&str, u8)] = &[
     ("[x, [x]] = [K, [K]]", 0),
     ("fn rN() {\nprint(x + 0)\n}", 6),
     ("rR()", 7),
+    ("x = x", 0),
+    ("{x, ..y} = {\"x\": K, \"z\": K}", 0),
+    ("[x, ..y] = [K, K]", 0),
+    ("hs += [fn () {\nreturn x + 0\n}]", 0),
+    ("print(hs[0]())", 0),
 ];
 const CLOSE: u16 = 11;
 
@@ -83,7 +88,7 @@ struct Alpha;
 impl Alphabet for Alpha {
     type St = St;
     fn init(&self) -> St {
-        St { ops: vec![], text: String::new(), open: vec![], next_k: 1, next_n: 1, reader: None }
+        St { ops: vec![], text: String::from("hs := []\n"), open: vec![], next_k: 1, next_n: 1, reader: None }
     }
     fn enabled(&self, st: &St) -> Vec<u16> {
         let last = st.ops.last().copied();
